@@ -1,5 +1,9 @@
 //! Private module for selective re-export.
 
+#[cfg(all(getong_stateright_verif, not(test)))]
+use crate::verif_hooks::std_shim as std;
+#[cfg(all(getong_stateright_verif, not(test)))]
+use crate::verif_hooks::dashmap_shim as dashmap;
 use crate::checker::{Checker, Expectation, Path};
 use crate::{fingerprint, CheckerBuilder, CheckerVisitor, Fingerprint, Model, Property};
 use dashmap::DashMap;
